@@ -407,11 +407,56 @@ def check_term_lists(verbose=True):
     return len(cases), len(mism), len(errors)
 
 
+def check_examples(verbose=True):
+    """The Python side of the Examples of proofs/PrinterFacts.v (documented limitations)."""
+    import gen
+    from pacti.terms.polyhedra.serializer import polyhedral_termlist_from_string
+    from pacti.utils.errors import PolyhedralSyntaxException
+
+    def rejected(s):
+        try:
+            polyhedral_termlist_from_string(s)
+        except PolyhedralSyntaxException:
+            return True
+        return False
+
+    facts = [
+        ("near_opposite_pair", gen.mktl([({"x": 1.000495}, -2000.0), ({"x": -1.000505}, 2000.0)]).to_str_list() == ["1 x = -2000"]),
+        ("rule3_unparseable", gen.mktl([({"x": 1.0}, 6e-9), ({"x": -1.0}, 6e-9)]).to_str_list() == ["|x| = 0"]),
+        ("rule3 string rejected by the grammar", rejected("|x| = 0")),
+        ("tiny_abs_prints_as_equality", gen.mktl([({"x": 1.0}, 1e-9), ({"x": -1.0}, 1e-9)]).to_str_list() == ["x = 1e-09"]),
+        ("lhs_quirks", gen.mktl([({"x": 1e-9, "y": 1.0}, 1.0), ({}, 3.0)]).to_str_list() == [" + y <= 1", " <= 3"]),
+        ("empty lhs rejected by the grammar", rejected(" <= 3")),
+        ("one_x", gen.mktl([({"x": 1.0001}, 0.0)]).to_str_list() == ["1 x <= 0"]),
+        ("demo_strings", gen.mktl([({"x": 1.0, "y": 2.0}, 3.0), ({"z": -0.5, "x": 1.0}, 4.0), ({"y": -2.0, "x": -1.0}, -3.0),
+                                   ({"z": 1.0}, 10000.0), ({"x": -1.0, "z": 0.5}, 4.0)]).to_str_list()
+         == ["x + 2 y = 3", "|x - 0.5 z| <= 4", "z <= 1e+04"]),
+        ("fmt4_examples", [format(x, ".4g") for x in (1.0, 9999.5, 1e16, 1 / 3, -100.1, 5e-7)]
+         == ["1", "1e+04", "1e+16", "0.3333", "-100.1", "5e-07"]),
+    ]
+    bad = [name for name, ok in facts if not ok]
+    if verbose:
+        print(f"examples: {len(facts)} Python-side facts of the Coq Examples; failing: {bad}")
+    return len(facts), len(bad)
+
+
+def ensure_model():
+    """model/Printer.vo must exist (and be current) in the coq tree the shards are compiled in."""
+    vo = os.path.join(common.COQ, "model", "Printer.vo")
+    v = os.path.join(common.COQ, "model", "Printer.v")
+    if not os.path.exists(vo) or os.path.getmtime(vo) < os.path.getmtime(v):
+        rc, out = common.coqc(os.path.join("model", "Printer.v"))
+        if rc != 0:
+            raise SystemExit("model/Printer.v does not compile:\n" + common.first_error(out))
+
+
 def selftest():
     common.assert_pacti_from_repo()
+    ensure_model()
+    n0, m0 = check_examples()
     n1, m1, e1 = check_fmt()
     n2, m2, e2 = check_term_lists()
-    ok = (m1 == 0 and e1 == 0 and m2 == 0 and e2 == 0 and n1 >= 100000 and n2 >= 2000)
+    ok = (m0 == 0 and m1 == 0 and e1 == 0 and m2 == 0 and e2 == 0 and n1 >= 100000 and n2 >= 2000)
     print("printer_cases selftest:", "OK" if ok else "FAILED")
     return ok
 
